@@ -22,6 +22,9 @@ def main():
     results = {}
     try:
         props = [target]
+        for a in sys.argv[2:]:
+            if a.startswith("--props="):
+                props = a[8:].split(",")
         if allp:
             props += [json.loads(l)["id"] for l in open(os.path.join(ROOT, "properties.jsonl")) if json.loads(l)["id"] != target]
         for pid in props:
@@ -34,7 +37,11 @@ def main():
             print(pid, r.returncode, verdict[:200], flush=True)
     finally:
         subprocess.run(["git", "-C", REPO, "checkout", "--", "."])
-    json.dump(results, open(os.path.join(d, "check_results.json"), "w"), indent=1)
+    old = {}
+    if os.path.exists(os.path.join(d, "check_results.json")):
+        old = json.load(open(os.path.join(d, "check_results.json")))
+    old.update(results)
+    json.dump(old, open(os.path.join(d, "check_results.json"), "w"), indent=1)
 
 if __name__ == "__main__":
     main()
